@@ -261,7 +261,7 @@ def run_foreign_bytes(np, case, ctx):
 			pass
 		return {'nontrivial': True, 'classes': ['foreign:valid_corrupt(no crash)']}
 	_expect_refused(path, case, strict=not is_h5, what=f'{mode} file of {len(data)} bytes')
-	return {'nontrivial': len(data) > 0, 'classes': ['foreign:' + mode, 'h5magic' if is_h5 else 'no_h5magic']}
+	return {'nontrivial': len(data) > 0, 'classes': ['foreign:' + mode, 'h5magic' if is_h5 else 'no_h5magic'], 'expects_rejection': True}
 
 
 def run_foreign_h5(np, case, ctx):
@@ -315,7 +315,7 @@ def run_foreign_h5(np, case, ctx):
 		else:
 			raise ValueError(shape)
 	_expect_refused(path, case, strict=strict, what=f'HDF5 file ({shape})')
-	return {'nontrivial': True, 'classes': ['foreign_h5:' + shape]}
+	return {'nontrivial': True, 'classes': ['foreign_h5:' + shape], 'expects_rejection': True}
 
 
 FASTA = st.lists(st.tuples(st.text(alphabet='abcXYZ019_ |', max_size=10), st.text(alphabet='ACGTN\n', max_size=80)), max_size=4).map(
